@@ -200,3 +200,9 @@ def describe(case, obs):
     d['kind'] = 'H'
     d['unversioned_outcomes'] = obs.get('plain_outcomes')
     return d
+
+
+def classify_corr(case, obs):
+    if case.get('kind') != 'H':
+        return None
+    return B.classify_corr(case, obs)
